@@ -271,6 +271,20 @@ def main(argv=None):
     pr = check_proofs(pid, spec)
     proof_broken = not pr["ok"]
 
+    # (1b) thorough tier: the independent checker re-checks the property file and everything it depends on
+    coqchk = None
+    if pr["ok"] and a.tier == "thorough" and not a.replay:
+        rc, out = sh(["timeout", "3000", "coqchk", "-silent", "-o", "-Q", ".", "JamV", "JamV.Properties." + pid], cwd=COQ)
+        m = re.search(r"\* Axioms:(.*?)\n\s*\n\* Constants", out, flags=re.S)
+        axs = m.group(1).strip() if m else "?"
+        coqchk = dict(rc=rc, axioms=axs)
+        if rc != 0 or axs != "<none>":
+            names = re.findall(r"([\w.']+)", axs) if axs not in ("<none>", "?") else []
+            if rc != 0 or axs == "?" or not all(any(ok in n for ok in STD_AXIOMS_OK) for n in names):
+                pr["ok"] = False
+                pr["log"] = "coqchk: rc=%d axioms=%s\n%s" % (rc, axs, out[-1500:])
+    proof_broken = not pr["ok"]
+
     # (2) builds
     okm, logm = build_model(spec.get("model", pid))
     okh, logh, hbin = build_harness(spec["harness"])
@@ -416,6 +430,7 @@ def main(argv=None):
             input_distribution=stats,
             replay=bool(a.replay),
             vm_compute_crosscheck=cross,
+            coqchk=coqchk,
         ),
         assumptions=spec.get("assumptions", []) + notes,
         wall_s=round(wall, 2), violations=len(violations),
